@@ -240,11 +240,16 @@ def run_config(chk, ctx, name):
                "fallible step %s runs after the callback accepted the new key; a failure there loses the signature of a consumed leaf: %s" % (name_, why),
                where=f.loc(b))
 
-    # R5: in-memory signing key closure
+    in_memory_key_rules(chk, F, A, tag, "R5")
+
+
+def in_memory_key_rules(chk, F, A, tag, prefix):
+    """The in-memory signing key's update closure must copy its *whole* argument into the key bytes
+    and report success (shared by C04-R5 and C09-E4: reloaded key == kept key)."""
     for m in A.method("SigningKey", "try_sign_with_aux"):
         g = F.fns[m]
         cls = [c for c in F._closures.get(m, [])]
-        chk.ob("R5.one-closure", core.strip_generics(m) + tag, len(cls) == 1, "expected exactly one closure (the key update) in %s, found %s" % (m, cls))
+        chk.ob(prefix + ".one-closure", core.strip_generics(m) + tag, len(cls) == 1, "expected exactly one closure (the key update) in %s, found %s" % (m, cls))
         for cp in cls:
             cf = F.fns[cp]
             rds = ret_defs(cf)
@@ -257,13 +262,13 @@ def run_config(chk, ctx, name):
                     dst = flow.origin(cf, t["args"][0])
                     if src[0] == "arg" and src[1] == 2 and dst[0] == "field":
                         writes.append((b, dst[2]))
-            chk.ob("R5.closure-writes-key-from-argument", core.strip_generics(cp) + tag, len(writes) >= 1,
+            chk.ob(prefix + ".closure-writes-key-from-argument", core.strip_generics(cp) + tag, len(writes) >= 1,
                    "the in-memory key's update closure does not copy its argument into the key bytes", where=cf.loc())
             if writes:
                 rb = cf.return_blocks()
-                chk.ob("R5.write-precedes-ok", core.strip_generics(cp) + tag, all(cf.dominates(writes[0][0], r) for r in rb),
+                chk.ob(prefix + ".write-precedes-ok", core.strip_generics(cp) + tag, all(cf.dominates(writes[0][0], r) for r in rb),
                        "the closure can report success without having written the key", where=cf.loc())
-            chk.ob("R5.closure-reports-success", core.strip_generics(cp) + tag, bool(all_ok),
+            chk.ob(prefix + ".closure-reports-success", core.strip_generics(cp) + tag, bool(all_ok),
                    "the update closure has a non-Ok return: %s" % rds, where=cf.loc())
 
 
